@@ -102,7 +102,7 @@ class Mirror:
 def sparse_seq(rng, tier):
     w = rng.choice([3, 5, 9, 17, 30, 63, 64, 65, 70, 100, 129, 150])
     h = w + rng.below(8)
-    nd = rng.choice([0, 0, 1, 2, min(w - 1, 3)])
+    nd = rng.choice([0, 0, 1, 2, min(w - 1, 3)] + ([64] if w >= 70 else []) + ([128, 64] if w >= 140 else []))
     M = Mirror(h, w, nd)
     ops = []
     # construction
@@ -162,6 +162,12 @@ def sparse_seq(rng, tier):
             i = rng.below(h)
             s = rng.below(M.fd())
             ops.append([7, i, s, rng.range(s, M.fd())])
+    # a tail created at an exact word boundary must still be re-spaced by the next freeze
+    if nd in (64, 128) and M.fd() >= 2:
+        ops.append([12, M.fd() - 1])
+        M.nd += 1
+        for _ in range(4):
+            ops.append([2, rng.below(h), rng.range(M.fd(), w - 1)])
     # wide matrices: keep freezing until the dense tail spans a third word per row (129+ columns)
     if w >= 129:
         while M.nd < 132 and M.fd() >= 2:
